@@ -163,8 +163,7 @@ func checkC03(c *Check) {
 		// ... and the offender is not resumed on that path: no PtraceCont before the return, none deferred (the kill
 		// is sent by the caller's cleanup after this function returned; a resumed tracee executes the refused call)
 		resumed := ""
-		contOn := map[*wstate]string{}
-		isCont := func(ci ssa.CallInstruction) bool {
+				isCont := func(ci ssa.CallInstruction) bool {
 			n, _ := calleeOf(ci)
 			return strings.HasSuffix(n, ".PtraceCont") || strings.HasSuffix(n, ".PtraceSyscall")
 		}
@@ -172,14 +171,14 @@ func checkC03(c *Check) {
 			if ci, ok := in.(ssa.CallInstruction); ok && isCont(ci) {
 				if _, isDefer := in.(*ssa.Defer); !isDefer {
 					if _, seen := st.vals[handleTrapCallOf(handle, handleTrap)]; seen {
-						contOn[st] = p.Pos(in.Pos())
+						st.noteStr("cont", p.Pos(in.Pos()))
 					}
 				}
 			}
 		}
 		w.OnReturn = func(w *walker, st *wstate, ret *ssa.Return, rs []*absVal) {
 			outs = append(outs, statusName(sc, rs[0]))
-			if pos, ok := contOn[st]; ok && resumed == "" {
+			if pos := st.notedStr("cont"); pos != "" && resumed == "" {
 				resumed = pos
 			}
 			for _, d := range st.defers {
